@@ -358,28 +358,70 @@ end Autog
 namespace Autog
 open G
 
-/-- … and with it the edge list -/
+/-- … and with it the edge list: duplicate-free, inside the store, and holding every edge that occurs in an In/Out list -/
 structure AdjL (g : G) : Prop extends Adj g where
   el : ∀ e ∈ g.elist, e < g.edges.size
+  elnd : g.elist.Nodup
+  inEl : ∀ n, ∀ e ∈ g.incident n, e ∈ g.elist
 
 theorem adjL_populate (cfg : Cfg) (es : InEdges) : AdjL (applySizes cfg (populate es)) := by
-  refine { toAdj := adj_populate cfg es, el := ?_ }
-  intro e he
-  have : (applySizes cfg (populate es)).elist = List.range (PopulateRename.populate es).edges.length := by
+  have hel : (applySizes cfg (populate es)).elist = List.range (PopulateRename.populate es).edges.length := by
     simp [applySizes, populate]
-  rw [this] at he
-  rw [populate_edges_size]
-  exact List.mem_range.1 he
+  have hA := adj_populate cfg es
+  refine { toAdj := hA, el := ?_, elnd := by rw [hel]; exact List.nodup_range, inEl := ?_ }
+  · intro e he
+    rw [hel] at he
+    rw [populate_edges_size]
+    exact List.mem_range.1 he
+  · intro n e he
+    rw [hel]
+    have := (hA.incWF).lt n e he
+    rw [populate_edges_size] at this
+    exact List.mem_range.2 this
 
-theorem adjL_reverse (g : G) (h : AdjL g) (e : Nat) (he : e < g.edges.size) : AdjL (g.reverse e) :=
-  { toAdj := adj_reverse g h.toAdj e he, el := fun x hx => by rw [reverse_esize]; exact h.el x (by simpa using hx) }
+theorem adjL_reverse (g : G) (h : AdjL g) (e : Nat) (he : e ∈ g.elist) : AdjL (g.reverse e) := by
+  refine { toAdj := adj_reverse g h.toAdj e (h.el e he), el := fun x hx => by rw [reverse_esize]; exact h.el x (by simpa using hx),
+           elnd := by simpa using h.elnd, inEl := ?_ }
+  intro n x hx
+  rw [reverse_elist]
+  unfold G.incident at hx
+  rw [(reverse_node_lists g e n).1, (reverse_node_lists g e n).2] at hx
+  -- every entry of the new lists is an old entry of the same node or e itself
+  have hold : x = e ∨ x ∈ g.incident n := by
+    unfold G.incident
+    rcases List.mem_append.1 hx with h1 | h1
+    · split at h1
+      · rcases List.mem_append.1 h1 with h2 | h2
+        · right; refine List.mem_append.2 (Or.inl ?_)
+          split at h2
+          · exact List.mem_of_mem_erase h2
+          · exact h2
+        · left; simpa using h2
+      · right; refine List.mem_append.2 (Or.inl ?_)
+        split at h1
+        · exact List.mem_of_mem_erase h1
+        · exact h1
+    · split at h1
+      · rcases List.mem_append.1 h1 with h2 | h2
+        · right; refine List.mem_append.2 (Or.inr ?_)
+          split at h2
+          · exact List.mem_of_mem_erase h2
+          · exact h2
+        · left; simpa using h2
+      · right; refine List.mem_append.2 (Or.inr ?_)
+        split at h1
+        · exact List.mem_of_mem_erase h1
+        · exact h1
+  rcases hold with rfl | h1
+  · exact he
+  · exact h.inEl n x h1
 
-theorem adjL_foldl_reverse : ∀ (l : List Nat) (g : G), AdjL g → (∀ e ∈ l, e < g.edges.size) → AdjL (l.foldl G.reverse g)
+theorem adjL_foldl_reverse : ∀ (l : List Nat) (g : G), AdjL g → (∀ e ∈ l, e ∈ g.elist) → AdjL (l.foldl G.reverse g)
   | [], g, h, _ => h
   | e :: l, g, h, hb => by
     simp only [List.foldl_cons]
     exact adjL_foldl_reverse l _ (adjL_reverse g h e (hb e (List.mem_cons_self ..)))
-      (fun x hx => by rw [reverse_esize]; exact hb x (List.mem_cons_of_mem _ hx))
+      (fun x hx => by rw [reverse_elist]; exact hb x (List.mem_cons_of_mem _ hx))
 
 /-- the two-cycle pre-pass reverses listed edges only -/
 theorem removeTwoNodeCycles_sub (g : G) : ∀ (l : List Nat) (acc : List (Nat × Nat) × List Nat),
@@ -415,26 +457,38 @@ theorem adjL_removeTwoNodeCycles (g : G) (h : AdjL g) : AdjL (removeTwoNodeCycle
   simp only
   apply adjL_foldl_reverse _ g h
   intro e he
-  exact h.el e (removeTwoNodeCycles_sub g g.elist ([], []) (fun _ h0 => by cases h0) (fun _ hx => hx) e he)
+  exact removeTwoNodeCycles_sub g g.elist ([], []) (fun _ h0 => by cases h0) (fun _ hx => hx) e he
 
 /-- self-loop stripping -/
-theorem adjL_stripLoop (g : G) (h : AdjL g) (e : Nat) : AdjL (stripLoop g e) := by
+theorem adjL_stripLoop (g : G) (h : AdjL g) (e : Nat) (hs : (g.edge e).src = (g.edge e).dst) : AdjL (stripLoop g e) := by
   unfold stripLoop
   simp only
   have hnode : ∀ n, ((((g.modNode (g.edge e).src fun n => { n with outs := G.removeE n.outs e }).modNode (g.edge e).src
-        fun n => { n with ins := G.removeE n.ins e }).node n).outs.Sublist (g.node n).outs) ∧
+        fun n => { n with ins := G.removeE n.ins e }).node n).outs =
+          if (g.edge e).src = n ∧ n < g.nodes.size then (g.node n).outs.erase e else (g.node n).outs) ∧
       ((((g.modNode (g.edge e).src fun n => { n with outs := G.removeE n.outs e }).modNode (g.edge e).src
-        fun n => { n with ins := G.removeE n.ins e }).node n).ins.Sublist (g.node n).ins) := by
+        fun n => { n with ins := G.removeE n.ins e }).node n).ins =
+          if (g.edge e).src = n ∧ n < g.nodes.size then (g.node n).ins.erase e else (g.node n).ins) := by
     intro n
     simp only [G.node_modNode, modNode_size, G.removeE]
     by_cases hc : (g.edge e).src = n ∧ n < g.nodes.size
-    · simp [hc, List.erase_sublist]
     · simp [hc]
-  refine { outs := ?_, ins := ?_, ndo := ?_, ndi := ?_, ends := ?_, el := ?_ }
-  · intro n x hx; exact h.outs n x ((hnode n).1.subset hx)
-  · intro n x hx; exact h.ins n x ((hnode n).2.subset hx)
-  · intro n; exact (h.ndo n).sublist (hnode n).1
-  · intro n; exact (h.ndi n).sublist (hnode n).2
+    · simp [hc]
+  have hsubo : ∀ n, ((((g.modNode (g.edge e).src fun n => { n with outs := G.removeE n.outs e }).modNode (g.edge e).src
+        fun n => { n with ins := G.removeE n.ins e }).node n).outs).Sublist (g.node n).outs := by
+    intro n; rw [(hnode n).1]; split
+    · exact List.erase_sublist ..
+    · exact List.Sublist.refl _
+  have hsubi : ∀ n, ((((g.modNode (g.edge e).src fun n => { n with outs := G.removeE n.outs e }).modNode (g.edge e).src
+        fun n => { n with ins := G.removeE n.ins e }).node n).ins).Sublist (g.node n).ins := by
+    intro n; rw [(hnode n).2]; split
+    · exact List.erase_sublist ..
+    · exact List.Sublist.refl _
+  refine { outs := ?_, ins := ?_, ndo := ?_, ndi := ?_, ends := ?_, el := ?_, elnd := ?_, inEl := ?_ }
+  · intro n x hx; exact h.outs n x ((hsubo n).subset hx)
+  · intro n x hx; exact h.ins n x ((hsubi n).subset hx)
+  · intro n; exact (h.ndo n).sublist (hsubo n)
+  · intro n; exact (h.ndi n).sublist (hsubi n)
   · intro j hj
     have hsz : ((g.modNode (g.edge e).src fun n => { n with outs := G.removeE n.outs e }).modNode (g.edge e).src
         fun n => { n with ins := G.removeE n.ins e }).nodes.size = g.nodes.size := by simp
@@ -443,16 +497,67 @@ theorem adjL_stripLoop (g : G) (h : AdjL g) (e : Nat) : AdjL (stripLoop g e) := 
     exact this
   · intro x hx
     exact h.el x (List.mem_of_mem_erase hx)
+  · exact h.elnd.sublist (List.erase_sublist ..)
+  · -- an entry that survives is a listed edge other than e
+    intro n x hx
+    simp only [G.removeE]
+    have hxold : x ∈ g.incident n := by
+      have hx2 : x ∈ (((g.modNode (g.edge e).src fun n => { n with outs := G.removeE n.outs e }).modNode (g.edge e).src
+          fun n => { n with ins := G.removeE n.ins e }).node n).ins ++
+          (((g.modNode (g.edge e).src fun n => { n with outs := G.removeE n.outs e }).modNode (g.edge e).src
+          fun n => { n with ins := G.removeE n.ins e }).node n).outs := hx
+      unfold G.incident
+      rcases List.mem_append.1 hx2 with h1 | h1
+      · exact List.mem_append.2 (Or.inl ((hsubi n).subset h1))
+      · exact List.mem_append.2 (Or.inr ((hsubo n).subset h1))
+    have hne : x ≠ e := by
+      intro hxe; subst hxe
+      have hx2 : x ∈ (((g.modNode (g.edge x).src fun n => { n with outs := G.removeE n.outs x }).modNode (g.edge x).src
+          fun n => { n with ins := G.removeE n.ins x }).node n).ins ++
+          (((g.modNode (g.edge x).src fun n => { n with outs := G.removeE n.outs x }).modNode (g.edge x).src
+          fun n => { n with ins := G.removeE n.ins x }).node n).outs := hx
+      rcases List.mem_append.1 hx2 with h1 | h1
+      · rw [(hnode n).2] at h1
+        split at h1
+        · exact (List.Nodup.mem_erase_iff (h.ndi n)).1 h1 |>.1 rfl
+        · rename_i hc
+          have hd := (h.ins n x h1).2
+          have hn : n < g.nodes.size := by rw [← hd]; exact (h.ends x (h.ins n x h1).1).2
+          exact hc ⟨by rw [hs]; exact hd, hn⟩
+      · rw [(hnode n).1] at h1
+        split at h1
+        · exact (List.Nodup.mem_erase_iff (h.ndo n)).1 h1 |>.1 rfl
+        · rename_i hc
+          have hd := (h.outs n x h1).2
+          have hn : n < g.nodes.size := by rw [← hd]; exact (h.ends x (h.outs n x h1).1).1
+          exact hc ⟨hd, hn⟩
+    exact (List.mem_erase_of_ne hne).2 (h.inEl n x hxold)
 
 theorem adjL_ignoreSelfLoops (g : G) (h : AdjL g) : AdjL (ignoreSelfLoops g).1 := by
   unfold ignoreSelfLoops
   simp only
-  have : ∀ (l : List Nat) (g0 : G), AdjL g0 → AdjL (l.foldl stripLoop g0) := by
+  -- edges of the store are never rewritten by stripping, so "is a self-loop" can be read off the original state
+  have hedge : ∀ (l : List Nat) (g0 : G), (l.foldl stripLoop g0).edges = g0.edges := by
     intro l
     induction l with
-    | nil => intro g0 h0; exact h0
-    | cons e l ih => intro g0 h0; exact ih _ (adjL_stripLoop g0 h0 e)
-  exact this _ g h
+    | nil => intro g0; rfl
+    | cons e l ih => intro g0; simp only [List.foldl_cons]; rw [ih]; rfl
+  have : ∀ (l : List Nat) (g0 : G), AdjL g0 → (∀ e ∈ l, (g0.edge e).src = (g0.edge e).dst) → AdjL (l.foldl stripLoop g0) := by
+    intro l
+    induction l with
+    | nil => intro g0 h0 _; exact h0
+    | cons e l ih =>
+      intro g0 h0 hl
+      simp only [List.foldl_cons]
+      refine ih _ (adjL_stripLoop g0 h0 e (hl e (List.mem_cons_self ..))) ?_
+      intro x hx
+      have : (stripLoop g0 e).edge x = g0.edge x := rfl
+      rw [this]; exact hl x (List.mem_cons_of_mem _ hx)
+  apply this _ g h
+  intro e he
+  have := (List.mem_filter.1 he).2
+  unfold G.selfLoops at this
+  simpa using this
 
 end Autog
 
@@ -465,7 +570,8 @@ def adjLb (g : G) : Bool :=
     (g.node n).ins.all (fun e => decide (e < g.edges.size) && (g.edge e).dst == n) &&
     decide ((g.node n).outs.Nodup) && decide ((g.node n).ins.Nodup)) &&
   (List.range g.edges.size).all (fun e => decide ((g.edge e).src < g.nodes.size) && decide ((g.edge e).dst < g.nodes.size)) &&
-  g.elist.all (fun e => decide (e < g.edges.size))
+  g.elist.all (fun e => decide (e < g.edges.size)) && decide (g.elist.Nodup) &&
+  (List.range g.nodes.size).all (fun n => (g.incident n).all fun e => g.elist.contains e)
 
 theorem node_default_lists (g : G) (n : Nat) (hn : ¬ n < g.nodes.size) : (g.node n).ins = [] ∧ (g.node n).outs = [] := by
   simp only [G.node, Array.getD_eq_getD_getElem?]
@@ -475,8 +581,14 @@ theorem node_default_lists (g : G) (n : Nat) (hn : ¬ n < g.nodes.size) : (g.nod
 theorem adjLb_sound (g : G) (h : adjLb g = true) : AdjL g := by
   unfold adjLb at h
   simp only [Bool.and_eq_true, List.all_eq_true, List.mem_range, decide_eq_true_eq, beq_iff_eq] at h
-  obtain ⟨⟨h1, h2⟩, h3⟩ := h
-  refine { outs := ?_, ins := ?_, ndo := ?_, ndi := ?_, ends := ?_, el := h3 }
+  obtain ⟨⟨⟨⟨h1, h2⟩, h3⟩, h4⟩, h5⟩ := h
+  refine { outs := ?_, ins := ?_, ndo := ?_, ndi := ?_, ends := ?_, el := h3, elnd := h4, inEl := ?_ }
+  rotate_right
+  · intro n e he
+    by_cases hn : n < g.nodes.size
+    · have := h5 n hn e he; simpa using this
+    · unfold G.incident at he
+      rw [(node_default_lists g n hn).1, (node_default_lists g n hn).2] at he; cases he
   · intro n e he
     by_cases hn : n < g.nodes.size
     · exact (h1 n hn).1.1.1 e he
